@@ -18,7 +18,7 @@ import ast
 from engine.cfg import call_name, cfg_of, expand_aliases
 from engine.errors import AnalysisError
 from engine.repo import walk_no_nested
-from engine.util import dotted, unparse
+from engine.util import calls_in, dotted, unparse
 
 ID = 'C15'
 NT = 'sdc11073.wsdiscovery.networkingthread'
@@ -318,6 +318,55 @@ def run(ctx):  # noqa: C901, PLR0912, PLR0915
                     direct.append(f2.qual)
     ctx.ob('C15.R4', 'single entry', not direct, '_repeated_enqueue_msg is called only from add_outbound_message',
            where=NT, witness=direct)
+    # what waits in the priority queue is ordered by its send time alone: two datagrams due at the same instant (same float)
+    # are compared by the next field - a field whose type has no order (the message) makes heapq raise inside put(), the
+    # datagram is not queued and its transmission is missing
+    ORDERED = {'float', 'int', 'str', 'bool', 'bytes'}
+    n_entry = 0
+    rq = repo.func(f'{NT}.NetworkingThread._repeated_enqueue_msg')
+    for c in calls_in(rq.node, 'put'):
+        if not (c.args and isinstance(c.args[0], ast.Call) and '_send_queue' in unparse(c.func)):
+            continue
+        nm = call_name(c.args[0])
+        ci = next((ci_ for q_, ci_ in repo.classes.items() if ci_.name == nm and q_.startswith(NT)), None)
+        n_entry += ci is not None
+        if ci is None or getattr(ci, '_c15_seen', False):
+            continue
+        ci._c15_seen = True  # noqa: SLF001
+        fields = [st for st in ci.node.body if isinstance(st, ast.AnnAssign) and isinstance(st.target, ast.Name)]
+        deco = [d for d in ci.node.decorator_list if 'dataclass' in unparse(d)]
+        ordered_dc = any(isinstance(d, ast.Call) and any(k.arg == 'order' and isinstance(k.value, ast.Constant) and k.value.value
+                                                         for k in d.keywords) for d in deco)
+        is_tuple = any(unparse(b).split('.')[-1] in ('NamedTuple', 'tuple') for b in ci.node.bases)
+        compared = []
+        for st in fields:
+            excluded = st.value is not None and isinstance(st.value, ast.Call) and call_name(st.value) == 'field' and \
+                any(k.arg == 'compare' and isinstance(k.value, ast.Constant) and k.value.value is False for k in st.value.keywords)
+            if not excluded or is_tuple:
+                compared.append((st.target.id, unparse(st.annotation)))
+        unordered = [f for f, a in compared if a not in ORDERED]
+        ok = (ordered_dc or is_tuple) and not unordered and bool(compared) and compared[0][0] == 'send_time'
+        ctx.ob('C15.R3', f'{nm} orders by send time', ok,
+               f'{nm}: queue entries compare by {[f for f, _ in compared]}, all of them ordered types' if ok else
+               f'{nm}: queue entries are compared field by field over {compared}; {unordered or "the first field"} has no order: '
+               f'two datagrams with the same send time make PriorityQueue.put raise TypeError - the datagram is never queued '
+               f'(fewer than 1 + repeat transmissions)', fi=rq, node=ci.node)
+    ctx.floor('C15.R3', n_entry, 2, 'entries put on the send queue')
+    # each of the 1 + repeat transmissions is serialised from its own message: the (process-wide, shared by all send threads)
+    # message factory keeps nothing between two serialisations
+    mf = repo.cls('sdc11073.pysoap.msgfactory.MessageFactory')
+    for name, fi_ in sorted(mf.methods.items()):
+        if name == '__init__':
+            continue
+        stores = [unparse(t) for x in walk_no_nested(fi_.node) if isinstance(x, (ast.Assign, ast.AugAssign, ast.AnnAssign))
+                  for t in (x.targets if isinstance(x, ast.Assign) else [x.target])
+                  if isinstance(t, (ast.Attribute, ast.Subscript)) and unparse(t).startswith('self.')]
+        memo = [unparse(d) for d in fi_.node.decorator_list if 'cache' in unparse(d)]
+        ctx.ob('C15.R3', f'MessageFactory.{name} keeps no state', not stores and not memo,
+               f'MessageFactory.{name} writes nothing on the shared factory' if not stores and not memo else
+               f'MessageFactory.{name} stores {stores or memo} on the factory, which all discovery nodes of the process share '
+               f'and use from their own send threads: a retransmission can be answered from what another thread stored '
+               f'(another node\'s datagram goes out instead, this message is sent once less)', fi=fi_)
     # a stopped node can be started again: _stop_threads forgets the joined networking thread, because _start_threads
     # creates a new one only when there is none - a kept (dead) thread drops every message in _repeated_enqueue_msg
     W = 'sdc11073.wsdiscovery.wsdimpl.WSDiscovery'
